@@ -157,6 +157,12 @@ type workerStats struct {
 	Violations int              `json:"violations"`
 }
 
+// exit codes of the worker: 0 = range completed, 3 = stopped early after persisting a
+// verdict, 12 = harness trouble. Anything else (2 = Go runtime fatal error or uncaught
+// panic, 66 = race detector exit, signals) is the death of the process while running the
+// code under test and is attributed to the case in progress.
+const exitHarness = 12
+
 func runSeed(base uint64, prop string, i int) uint64 {
 	return simrt.Hash3(base, simrt.HashStr(prop), uint64(i)) | 1
 }
@@ -222,7 +228,7 @@ func Execute(t *testing.T, c *Case, dir string, rr *raceReader, runWall time.Dur
 		buf := make([]byte, 1<<20)
 		n := runtime.Stack(buf, true)
 		progress(fmt.Sprintf("WALL-WATCHDOG after %v\n%s", runWall, buf[:n]))
-		os.Exit(2)
+		os.Exit(exitHarness)
 	})
 	defer wd.Stop()
 	before := simrt.RaceErrors()
@@ -289,7 +295,7 @@ func WorkerMain(t *testing.T) {
 	var a workerArgs
 	if err := json.Unmarshal([]byte(raw), &a); err != nil {
 		fmt.Fprintln(os.Stderr, "bad VERIFSIM_ARGS:", err)
-		os.Exit(2)
+		os.Exit(exitHarness)
 	}
 	if a.RunWallS == 0 {
 		a.RunWallS = 180
@@ -302,7 +308,7 @@ func WorkerMain(t *testing.T) {
 		b, err := os.ReadFile(a.CaseFile)
 		if err != nil {
 			fmt.Fprintln(os.Stderr, err)
-			os.Exit(2)
+			os.Exit(exitHarness)
 		}
 		var c Case
 		if err := json.Unmarshal(b, &c); err != nil {
@@ -375,7 +381,7 @@ func WorkerMain(t *testing.T) {
 		case "harness":
 			writeJSON(filepath.Join(a.OutDir, fmt.Sprintf("harness-%d.json", i)), map[string]any{"case": c, "verdict": v})
 			st.Ended = "harness"
-			finish(2)
+			finish(exitHarness)
 		}
 	}
 	st.Next = i
